@@ -2,7 +2,7 @@
 import enc, gen, sweep, encprop, impl
 import segno
 
-TOP = ['theories/Props/C02.v', 'theories/Tie/TieTables.v', 'theories/Tie/TieFuns.v', 'theories/Tie/TieFormat.v', 'theories/Tie/TieFnPat.v']
+TOP = ['theories/Props/C02.v', 'theories/Tie/TieTables.v', 'theories/Tie/TieFuns.v', 'theories/Tie/TieFormat.v', 'theories/Tie/TieFnPat.v', 'theories/Tie/TieChain.v']
 WANT = ('c02', 'decode')
 RULE = ('all 1312 (version, level, mask) triples with random data (exhaustive in both tiers) plus random cases; the extracted '
         'ISO geometry/BCH/Golay oracle is evaluated on every implementation matrix; QRCode metadata compared with the matrix')
